@@ -403,6 +403,7 @@ static struct {
     void (*mode)(int); int (*lib_found)(void); void (*on_deadlock)(void (*)(const char *));
     void (*park_setup)(int); void (*park_thread_is_me)(void); int (*park_events)(void); int (*is_parked)(void);
     void (*release)(void); int (*wait_parked)(volatile int *, int);
+    void (*aux_setup)(int); void (*aux_thread_is_me)(void); int (*aux_parked)(void);
     void (*coop_setup)(int, const int *, int); const char *(*coop_trace)(void); int (*coop_steps)(void); int (*deadlocked)(void);
     void (*coop_thread_start)(int); void (*coop_thread_exit)(void); void (*coop_run)(void); void (*coop_point)(char);
 } S;
@@ -412,6 +413,7 @@ static void sched_load(void)
 #define L(f, n) *(void **) (&S.f) = dlsym(RTLD_DEFAULT, n)
     L(mode, "sched_mode"); L(lib_found, "sched_lib_found"); L(on_deadlock, "sched_on_deadlock"); L(park_setup, "sched_park_setup");
     L(park_thread_is_me, "sched_park_thread_is_me"); L(park_events, "sched_park_events"); L(is_parked, "sched_is_parked");
+    L(aux_setup, "sched_aux_setup"); L(aux_thread_is_me, "sched_aux_thread_is_me"); L(aux_parked, "sched_aux_parked");
     L(release, "sched_release"); L(wait_parked, "sched_wait_parked"); L(coop_setup, "sched_coop_setup"); L(coop_trace, "sched_coop_trace");
     L(coop_steps, "sched_coop_steps"); L(deadlocked, "sched_deadlocked"); L(coop_thread_start, "sched_coop_thread_start");
     L(coop_thread_exit, "sched_coop_thread_exit"); L(coop_run, "sched_coop_run"); L(coop_point, "sched_coop_point");
@@ -863,12 +865,32 @@ static void op_oracle(void)
     ev_end(&e); ev_free(&e);
 }
 
+/* is process pid, or any descendant of it, asleep in futex()?  In a single-threaded child of fork() nobody can ever wake it. */
+static int blocked_in_futex(pid_t pid, int depth)
+{
+    char p[64], b[256];
+    snprintf(p, sizeof p, "/proc/%d/syscall", (int) pid);
+    int fd = open(p, O_RDONLY), hit = 0;
+    if (fd >= 0) { ssize_t n = read(fd, b, sizeof b - 1); close(fd); if (n > 0) { b[n] = 0; if (!strncmp(b, "202 ", 4)) hit = 1; } }
+    if (hit || depth > 3) return hit;
+    snprintf(p, sizeof p, "/proc/%d/task/%d/children", (int) pid, (int) pid);
+    fd = open(p, O_RDONLY);
+    if (fd >= 0) {
+        ssize_t n = read(fd, b, sizeof b - 1); close(fd);
+        if (n > 0) { b[n] = 0; char *q = b; while (*q) { long c = strtol(q, &q, 10); if (c > 0 && blocked_in_futex((pid_t) c, depth + 1)) return 1; while (*q == ' ') q++; if (!c) break; } }
+    }
+    return 0;
+}
+
 /* ------------------------------------------------------------------ threads (C09) */
-typedef struct { call_t *calls; int n; pthread_barrier_t *bar; int coop_index; volatile int *done; int park; } thr_t;
+typedef struct { call_t *calls; int n; pthread_barrier_t *bar; int coop_index; volatile int *done; int park; volatile long long t0, t1; } thr_t;
+static long long now_us(void) { struct timespec ts; clock_gettime(CLOCK_MONOTONIC, &ts); return ts.tv_sec * 1000000LL + ts.tv_nsec / 1000; }
 static void *thr_main(void *p)
 {
     thr_t *t = p;
-    if (t->park) S.park_thread_is_me();
+    if (t->park == 1) S.park_thread_is_me();
+    if (t->park == 2) S.aux_thread_is_me();
+    if (t->park == 3) { t->t0 = now_us(); for (int i = 0; i < t->n; i++) call_run(&t->calls[i]); t->t1 = now_us(); if (t->done) *t->done = 1; return NULL; }
     if (t->coop_index >= 0) S.coop_thread_start(t->coop_index);
     if (t->bar) pthread_barrier_wait(t->bar);
     for (int i = 0; i < t->n; i++) call_run(&t->calls[i]);
@@ -899,14 +921,30 @@ static int parse_ops(unsigned char *blob, size_t len, op_t **out)
 
 static void run_ops(op_t *ops, int nops);
 
+/* the chain's levels share one page: the leaf can ask an ancestor to change its kernel name later on (op 'a') */
+static struct chain_shared { volatile pid_t pid[32]; volatile int n, req_level, ack; char name[16]; } *g_chain;
+static int g_chain_level = -1;
+static void chain_sig(int sig)
+{
+    (void) sig;
+    if (g_chain && g_chain->req_level == g_chain_level) { prctl(PR_SET_NAME, g_chain->name, 0, 0, 0); g_chain->req_level = -1; g_chain->ack = 1; }
+}
+
 static void op_chain(op_t *ops, int nops, int idx)
 {
     /* args: names...  -- every level forks; level i sets its name then forks the next; the leaf runs the rest */
     const op_t *op = &ops[idx];
+    g_chain = mmap(NULL, 4096, PROT_READ | PROT_WRITE, MAP_SHARED | MAP_ANONYMOUS, -1, 0);
+    if (g_chain == MAP_FAILED) { g_chain = NULL; ev_error("mmap chain"); }
+    else { g_chain->n = (int) op->n; g_chain->req_level = -1; }
     for (uint32_t i = 0; i < op->n; i++) {
         char *nm = dupz(op->a[i].p, op->a[i].len);
         prctl(PR_SET_NAME, nm, 0, 0, 0);
         free(nm);
+        if (g_chain && i < 32) {
+            g_chain_level = (int) i; g_chain->pid[i] = getpid();
+            struct sigaction sa; memset(&sa, 0, sizeof sa); sa.sa_handler = chain_sig; sigaction(SIGUSR1, &sa, NULL);
+        }
         pid_t p = fork();
         if (p < 0) { ev_error("fork chain"); _exit(94); }
         if (p > 0) {
@@ -916,6 +954,7 @@ static void op_chain(op_t *ops, int nops, int idx)
             _exit(WIFEXITED(st) ? WEXITSTATUS(st) : 93);
         }
         prctl(PR_SET_PDEATHSIG, SIGKILL);
+        g_chain_level = -1; signal(SIGUSR1, SIG_DFL);
     }
     run_ops(ops + idx + 1, nops - idx - 1);
     _exit(0);
@@ -983,6 +1022,17 @@ static void run_ops(op_t *ops, int nops)
             signal(SIGXFSZ, SIG_IGN);
             if (setrlimit(RLIMIT_FSIZE, &rl) < 0) ev_error("setrlimit");
             break; }
+        case 'a': { /* ancestor rename: args distance from the leaf (1 = parent), new kernel name */
+            int dist = arg_int(&op->a[0]);
+            if (!g_chain || dist < 1 || dist > g_chain->n || g_chain->n - dist >= 32) { ev_error("bad ancestor"); break; }
+            int lvl = g_chain->n - dist;
+            memset(g_chain->name, 0, sizeof g_chain->name);
+            memcpy(g_chain->name, op->a[1].p, op->a[1].len < 15 ? op->a[1].len : 15);
+            g_chain->ack = 0; g_chain->req_level = lvl;
+            kill(g_chain->pid[lvl], SIGUSR1);
+            for (int ms = 0; ms < 3000 && !g_chain->ack; ms++) usleep(1000);
+            if (!g_chain->ack) ev_error("ancestor did not rename");
+            break; }
         case 'e': g_pre_errno = arg_int(&op->a[0]); break;
         case 't': g_thread_stack = (size_t) arg_ll(&op->a[0]); break;
         case 'n': { /* private UTS namespace + hostname */
@@ -1036,13 +1086,33 @@ static void run_ops(op_t *ops, int nops)
             sched_load();
             if (!S.ok || i + 2 >= nops) { ev_error("libsched not loaded / bad J"); break; }
             int k = arg_int(&op->a[0]), depth = arg_int(&op->a[1]);
+            int naux = op->n > 3 ? arg_int(&op->a[2]) : 0, auxk = op->n > 3 ? arg_int(&op->a[3]) : 0;
+            if (naux > 8) naux = 8;
             thr_t tb; memset(&tb, 0, sizeof tb);
-            volatile int done = 0;
+            thr_t ta[8]; memset(ta, 0, sizeof ta);
+            pthread_t atid[8];
+            volatile int done = 0, adone[8] = {0};
             call_t cc;
             tb.calls = calloc(1, sizeof(call_t)); tb.n = 1; tb.coop_index = -1; tb.done = &done; tb.park = 1;
             call_prepare(&tb.calls[0], &ops[i + 1]);
             call_prepare(&cc, &ops[i + 2]);
             S.mode(1); S.park_setup(k);
+            int aux_parked = 0;
+            if (naux && S.aux_setup) {
+                /* further threads of the parent, each stopped in the middle of its own call (holding no lock) */
+                S.aux_setup(auxk);
+                for (int q = 0; q < naux; q++) {
+                    ta[q].calls = calloc(1, sizeof(call_t)); ta[q].n = 1; ta[q].coop_index = -1; ta[q].done = &adone[q]; ta[q].park = 2;
+                    call_prepare(&ta[q].calls[0], &ops[i + 1]);
+                    pthread_create(&atid[q], NULL, thr_main, &ta[q]);
+                }
+                for (int ms = 0; ms < 5000 && S.aux_parked() < naux; ms++) {
+                    int fin = 0; for (int q = 0; q < naux; q++) fin += adone[q];
+                    if (fin + S.aux_parked() >= naux) break;
+                    usleep(1000);
+                }
+                aux_parked = S.aux_parked();
+            }
             pthread_t tid;
             pthread_create(&tid, NULL, thr_main, &tb);
             int parked = S.wait_parked(&done, 5000);
@@ -1053,6 +1123,71 @@ static void run_ops(op_t *ops, int nops)
                 /* the sinks stay the parent's: a really exec'd program must not drain them either */
                 for (int q = 0; q < nsinks; q++) if (sinks[q].fd >= 0) fcntl(sinks[q].fd, F_SETFD, FD_CLOEXEC);
                 S.on_deadlock(on_deadlock_exit);
+                prctl(PR_SET_PDEATHSIG, SIGKILL);
+                if (depth == 2) {
+                    pid_t p2 = fork();
+                    if (p2 < 0) { ev_error("fork depth 2"); _exit(3); }
+                    if (p2 > 0) { int st2; while (waitpid(p2, &st2, 0) < 0 && errno == EINTR) ; _exit(WIFEXITED(st2) ? WEXITSTATUS(st2) : 99); }
+                    prctl(PR_SET_PDEATHSIG, SIGKILL);
+                }
+                call_run(&cc);
+                if (depth == 3) {
+                    /* the child's (failing) call has returned: it forks again and the grandchild makes the same call */
+                    emit_simple('c', "child-first-call-completed");
+                    fflush(NULL);
+                    pid_t p3 = fork();
+                    if (p3 < 0) { ev_error("fork depth 3"); _exit(3); }
+                    if (p3 > 0) { int st3; while (waitpid(p3, &st3, 0) < 0 && errno == EINTR) ; _exit(WIFEXITED(st3) ? WEXITSTATUS(st3) : 99); }
+                    prctl(PR_SET_PDEATHSIG, SIGKILL);
+                    call_run(&cc);
+                }
+                emit_simple('c', "child-call-completed");
+                fflush(NULL);
+                _exit(0);
+            }
+            const char *status = "ok";
+            if (pid < 0) { ev_error("fork"); status = "forkfailed"; }
+            else {
+                int st = 0, waited = 0;
+                for (int ms = 0; ms < 10000; ms++) {
+                    pid_t w = waitpid(pid, &st, WNOHANG);
+                    if (w == pid) { waited = 1; break; }
+                    usleep(1000);
+                }
+                if (!waited) { status = blocked_in_futex(pid, 0) ? "timeout-futex" : "timeout"; kill(pid, SIGKILL); waitpid(pid, &st, 0); }
+                else if (WIFEXITED(st) && WEXITSTATUS(st) == 77) status = "deadlock";
+                else if (!(WIFEXITED(st) && WEXITSTATUS(st) == 0)) status = "abnormal";
+            }
+            int was_parked_at_end = S.is_parked();
+            S.release();
+            pthread_join(tid, NULL);
+            for (int q = 0; q < naux && S.aux_setup; q++) pthread_join(atid[q], NULL);
+            { ev_t e = {0}; ev_begin(&e, 'j'); ev_int(&e, k); ev_int(&e, parked); ev_int(&e, S.park_events()); ev_str(&e, status);
+              ev_int(&e, was_parked_at_end); ev_int(&e, depth); ev_int(&e, aux_parked); ev_end(&e); ev_free(&e); }
+            S.mode(0);
+            i += 2;
+            break; }
+        case 'I': { /* timed fork (for tracer-injected delays, C10): args pre_ms depth; then X (second thread's call) X (child's call).
+                       The second thread starts its call; pre_ms after it started the main thread fork()s; the child makes its call. */
+            if (i + 2 >= nops) { ev_error("bad I"); break; }
+            int pre_ms = arg_int(&op->a[0]), depth = arg_int(&op->a[1]);
+            thr_t tb; memset(&tb, 0, sizeof tb);
+            volatile int done = 0;
+            call_t cc;
+            tb.calls = calloc(1, sizeof(call_t)); tb.n = 1; tb.coop_index = -1; tb.done = &done; tb.park = 3;
+            call_prepare(&tb.calls[0], &ops[i + 1]);
+            call_prepare(&cc, &ops[i + 2]);
+            pthread_t tid;
+            pthread_create(&tid, NULL, thr_main, &tb);
+            for (int ms = 0; ms < 5000 && !tb.t0; ms++) usleep(1000);
+            usleep(pre_ms * 1000);
+            fflush(NULL);
+            long long t_fork = now_us();
+            int b_done_at_fork = done;
+            pid_t pid = fork();
+            if (pid == 0) {
+                g_no_drain = 1;
+                for (int q = 0; q < nsinks; q++) if (sinks[q].fd >= 0) fcntl(sinks[q].fd, F_SETFD, FD_CLOEXEC);
                 prctl(PR_SET_PDEATHSIG, SIGKILL);
                 if (depth == 2) {
                     pid_t p2 = fork();
@@ -1074,16 +1209,14 @@ static void run_ops(op_t *ops, int nops)
                     if (w == pid) { waited = 1; break; }
                     usleep(1000);
                 }
-                if (!waited) { kill(pid, SIGKILL); waitpid(pid, &st, 0); status = "timeout"; }
-                else if (WIFEXITED(st) && WEXITSTATUS(st) == 77) status = "deadlock";
+                if (!waited) { status = blocked_in_futex(pid, 0) ? "timeout-futex" : "timeout"; kill(pid, SIGKILL); waitpid(pid, &st, 0); }
                 else if (!(WIFEXITED(st) && WEXITSTATUS(st) == 0)) status = "abnormal";
             }
-            int was_parked_at_end = S.is_parked();
-            S.release();
-            pthread_join(tid, NULL);
-            { ev_t e = {0}; ev_begin(&e, 'j'); ev_int(&e, k); ev_int(&e, parked); ev_int(&e, S.park_events()); ev_str(&e, status);
-              ev_int(&e, was_parked_at_end); ev_int(&e, depth); ev_end(&e); ev_free(&e); }
-            S.mode(0);
+            int joined = 0;
+            for (int ms = 0; ms < 15000; ms++) { if (done) { joined = 1; break; } usleep(1000); }
+            if (joined) pthread_join(tid, NULL);
+            { ev_t e = {0}; ev_begin(&e, 'j'); ev_int(&e, pre_ms); ev_int(&e, !b_done_at_fork); ev_int(&e, (int) ((tb.t1 - tb.t0) / 1000)); ev_str(&e, status);
+              ev_int(&e, joined); ev_int(&e, depth); ev_int(&e, (int) ((t_fork - tb.t0) / 1000)); ev_int(&e, (int) pid); ev_end(&e); ev_free(&e); }
             i += 2;
             break; }
         case 'Z': { /* threads: args: nthreads, barrier(0/1); followed by X ops carrying tno */
